@@ -53,6 +53,16 @@ Theorem C10_string_round_trip : forall html s t rest,
             (sen_quoted html s = true \/ reserved s = false -> val_of o = SvStr (sanitize s)).
 Proof. exact sen_string_round_trip. Qed.
 
+(* the same with white space (blanks, tabs, carriage returns, commas) before the value *)
+Theorem C10_string_round_trip_ws : forall html s ws t rest,
+  Forall (fun b => skipb b = true) ws ->
+  tok_end (SenMaps.tab_tokenMap t) = true ->
+  sen_quoted html s = true \/ sign_leading s = false ->
+  exists o, sen_read (ws ++ sen_string html s ++ t :: rest) = Some (o, t :: rest) /\
+            key_of o = sanitize s /\
+            (sen_quoted html s = true \/ reserved s = false -> val_of o = SvStr (sanitize s)).
+Proof. exact sen_string_round_trip_ws. Qed.
+
 (* the two exceptions are real (the recorded finding C10-bare-reserved-or-sign-string, in the model):
    "true" is written bare and read as the boolean; "-a" is written bare and is not a token *)
 Theorem C10_reserved_value_refuted :
